@@ -532,5 +532,29 @@ fn run_ranges<W: Write>(cx: &mut Ctx<W>, rng: &mut Rng, count: usize, maxn: usiz
                 fmt_ints(&degs), v.iter().map(|(a, b)| format!("{a}-{b}")).collect::<Vec<_>>().join(",")).unwrap();
             cx.id += 1;
         }
+        // the same over a labeling that does not know its number of arcs (an arc list): the
+        // granularity must come from the degree cumulative function that is passed in
+        {
+            let gran = if rng.chance(1, 2) { Granularity::Arcs(rng.range(1, arcs + 2) as u64) } else { Granularity::Nodes(rng.range(1, n + 1)) };
+            let (gs, ag) = match gran {
+                Granularity::Nodes(x) => (format!("nodes:{x}"), gran.arc_granularity(n, Some(arcs as u64))),
+                Granularity::Arcs(x) => (format!("arcs:{x}"), gran.arc_granularity(n, Some(arcs as u64))),
+            };
+            let pairs: Vec<(usize, usize)> = g.iter().enumerate().flat_map(|(x, l)| l.iter().map(move |&y| (x, y))).collect();
+            let al = webgraph::graphs::arc_list_graph::ArcListGraph::new(n, pairs);
+            let rec: Mutex<Vec<(usize, usize)>> = Mutex::new(Vec::new());
+            let res = catch(AssertUnwindSafe(|| {
+                let dcf = vg.build_dcf();
+                pool.install(|| {
+                    al.par_apply(|r| { rec.lock().unwrap().push((r.start, r.end)); }, |_, _| (), gran, &dcf, no_logging![])
+                })
+            }));
+            let mut v = rec.into_inner().unwrap();
+            v.sort_unstable();
+            let status = match res { Ok(()) => "ok".to_string(), Err(m) => panic_status(&m) };
+            writeln!(cx.out, "chunks id=s{} n={n} src=arclist gran={gs} g={ag} threads={t} degs={} status={status} ranges={}", cx.id,
+                fmt_ints(&degs), v.iter().map(|(a, b)| format!("{a}-{b}")).collect::<Vec<_>>().join(",")).unwrap();
+            cx.id += 1;
+        }
     }
 }
